@@ -231,4 +231,857 @@ theorem bip143_pre_spec (H : Hashes) (t : Tx) (st : Spec.Sighash.Tx) (i ht amoun
     Spec.Sighash.bip143, h2, Option.map_some, List.append_assoc]
   rfl
 
+/-! ### BIP341 -/
+
+theorem ht_facts341 : ∀ ht ∈ Spec.Sighash.stdHashTypes,
+    (decide ((if ht = 0 then 1 else ht % 4) = 3) = decide (base ht = Gen.sighashSingle)) ∧
+    (decide ((if ht = 0 then 1 else ht % 4) = 2) = decide (base ht = Gen.sighashNone)) ∧
+    (decide (ht / 128 % 2 = 1) = acp ht) ∧ Spec.Sighash.stdHashTypes.contains ht = true := by
+  decide
+
+/-- the annex the code feeds into the message: `witness[-1]` when `has_annex()` -/
+def modelAnnex (cfg : Cfg) (w : Witness) : Option (Option Bytes) := do
+  let a ← w.hasAnnex cfg
+  if a then (fromEnd w.items 1).map some else pure none
+
+theorem bip341Mid_spec (H : Hashes) (t : Tx) (st : Spec.Sighash.Tx) (spent : List Spec.Sighash.TxOut) (ht : Nat)
+    (hins : All₂ RepIn t.ins st.vin) (hsp : All₂ RepSpent t.ins spent) :
+    bip341Mid Cfg.repaired H { tx := t } ht =
+      some (if ¬ acp ht then
+              H.sha256 (st.vin.map fun i => Spec.Sighash.serOutPoint i.prevout).flatten
+              ++ H.sha256 (spent.map fun o => Spec.Sighash.le 8 o.nValue).flatten
+              ++ H.sha256 (spent.map fun o => Spec.Sighash.serScript o.scriptPubKey).flatten
+              ++ H.sha256 (st.vin.map fun i => Spec.Sighash.le 4 i.nSequence).flatten
+            else [], { tx := t }) := by
+  cases h : acp ht <;>
+    simp [bip341Mid, h, shaPrevouts, shaAmounts, shaScriptPubkeys, shaSequences, Cfg.repaired, prevoutsBytes_spec hins,
+      sequencesBytes_spec hins, amountsBytes_spec hsp, spksBytes_spec hsp]
+
+theorem bip341Outs_spec (H : Hashes) (t : Tx) (st : Spec.Sighash.Tx) (ht : Nat) (houts : All₂ RepOut t.outs st.vout) :
+    bip341Outs Cfg.repaired H { tx := t } ht =
+      some (if base ht ≠ Gen.sighashNone ∧ base ht ≠ Gen.sighashSingle then H.sha256 (st.vout.map Spec.Sighash.serTxOut).flatten
+            else [], { tx := t }) := by
+  unfold bip341Outs
+  by_cases c : base ht ≠ Gen.sighashNone ∧ base ht ≠ Gen.sighashSingle
+  · rw [if_pos c, if_pos c]; simp [shaOutputs, Cfg.repaired, serOuts_spec houts]
+  · rw [if_neg c, if_neg c]
+
+theorem bip341Input_spec (txin : TxIn) (si : Spec.Sighash.TxIn) (sp : Spec.Sighash.TxOut) (i ht : Nat)
+    (hi : i < 2 ^ 32) (hr : RepIn txin si) (hs : RepSpent txin sp) :
+    bip341Input txin i ht =
+      some (if acp ht then Spec.Sighash.serOutPoint si.prevout ++ Spec.Sighash.le 8 sp.nValue
+              ++ Spec.Sighash.serScript sp.scriptPubKey ++ Spec.Sighash.le 4 si.nSequence
+            else Spec.Sighash.le 4 i) := by
+  obtain ⟨r1, r2, r3, r4, r5⟩ := hr
+  obtain ⟨s1, s2, s3, spk, s4, s5⟩ := hs
+  have e3 : natToLE txin.prevIndex 4 = some (Spec.Sighash.le 4 si.prevout.n) := by rw [r2]; exact natToLE_spec (by omega)
+  have e4 : natToLE txin.sequence 4 = some (Spec.Sighash.le 4 si.nSequence) := by rw [r3]; exact natToLE_spec (by omega)
+  have e5 : natToLE sp.nValue 8 = some (Spec.Sighash.le 8 sp.nValue) := natToLE_spec (by omega)
+  have e6 : natToLE i 4 = some (Spec.Sighash.le 4 i) := natToLE_spec (by omega)
+  cases h : acp ht <;>
+    simp [bip341Input, h, Gen.bip341PrevIndexW, Gen.bip341AmountW, Gen.sequenceSerW, Gen.bip341InputIndexW, e3, e4, e5, e6,
+      s1, s4, script_serialize_spec s5 s3, Spec.Sighash.serOutPoint, r1]
+
+theorem bip341Single_spec (H : Hashes) (t : Tx) (st : Spec.Sighash.Tx) (i ht : Nat) (houts : All₂ RepOut t.outs st.vout) :
+    bip341Single H t i ht =
+      if base ht = Gen.sighashSingle then (st.vout[i]?).map fun o => H.sha256 (Spec.Sighash.serTxOut o) else some [] := by
+  unfold bip341Single
+  by_cases c : base ht = Gen.sighashSingle
+  · rw [if_pos c, if_pos c]
+    rcases forall₂_getElem? houts i with ⟨h1, h2⟩ | ⟨o, so, h1, h2, hr⟩
+    · simp [h1, h2]
+    · simp [h1, h2, txout_serialize_spec hr]
+  · rw [if_neg c, if_neg c]
+
+theorem modelAnnex_inv {cfg : Cfg} {w : Witness} {annex : Option Bytes} (h : modelAnnex cfg w = some annex) :
+    ∃ a, w.hasAnnex cfg = some a ∧ a = annex.isSome ∧ (a = true → fromEnd w.items 1 = annex) := by
+  simp only [modelAnnex, Option.pure_def, Option.bind_eq_bind, bind_some_iff] at h
+  obtain ⟨a, h1, h2⟩ := h
+  cases a with
+  | false => simp at h2; subst h2; exact ⟨false, h1, rfl, by simp⟩
+  | true =>
+    simp only [if_true, Option.map_eq_some_iff] at h2
+    obtain ⟨l, h3, h4⟩ := h2
+    subst h4
+    exact ⟨true, h1, rfl, fun _ => h3⟩
+
+theorem bip341Annex_spec (H : Hashes) (txin : TxIn) (annex : Option Bytes) (a : Bool)
+    (ha : a = annex.isSome) (hl : a = true → fromEnd txin.witness.items 1 = annex)
+    (hlen : ∀ x, annex = some x → x.length < 2 ^ 64) :
+    bip341Annex H txin a =
+      some (match annex with | some x => H.sha256 (Spec.Sighash.compactSize x.length ++ x) | none => []) := by
+  cases annex with
+  | none => simp at ha; subst ha; simp [bip341Annex]
+  | some x =>
+    simp at ha; subst ha
+    have := hl rfl
+    simp [bip341Annex, this, encodeVarstr_spec (hlen x rfl), Spec.Sighash.serScript]
+
+/-- the extension the code appends for `ext_flag == 1`, as the specification's `Ext` -/
+def modelExt (cfg : Cfg) (H : Hashes) (xonlyOK : Bytes → Bool) (w : Witness) (extFlag : Nat) : Option (Option Spec.Sighash.Ext) :=
+  if extFlag = 1 then (tapLeafHash cfg H.sha256 xonlyOK w).map fun lh => some { tapleafHash := lh }
+  else if extFlag = 0 then some none else none
+
+theorem bip341_pre_spec (H : Hashes) (xonlyOK : Bytes → Bool) (t : Tx) (st : Spec.Sighash.Tx)
+    (spent : List Spec.Sighash.TxOut) (i ht extFlag : Nat) (txin : TxIn) (annex : Option Bytes) (ext : Option Spec.Sighash.Ext)
+    (rep : Rep t st) (hsp : All₂ RepSpent t.ins spent) (hht : ht ∈ Spec.Sighash.stdHashTypes)
+    (hin : t.ins[i]? = some txin) (hi : i < 2 ^ 32)
+    (hann : modelAnnex Cfg.repaired txin.witness = some annex) (hannlen : ∀ x, annex = some x → x.length < 2 ^ 64)
+    (hext : modelExt Cfg.repaired H xonlyOK txin.witness extFlag = some ext) :
+    sigHashBip341Pre Cfg.repaired H xonlyOK { tx := t } i extFlag ht =
+      (Spec.Sighash.taprootMsg H.sha256 st spent i ht annex ext).map fun p => (p, { tx := t }) := by
+  obtain ⟨hv, hl, rv, rl, hnin, _, hins, houts⟩ := rep
+  obtain ⟨ha, hs, hn, hlt, _, _⟩ := ht_facts ht hht
+  obtain ⟨f1, f2, f3, f4⟩ := ht_facts341 ht hht
+  rcases forall₂_getElem? hins i with ⟨h1, _⟩ | ⟨a, si, h1, h2, hr⟩
+  · rw [hin] at h1; cases h1
+  rw [hin] at h1; cases h1
+  rcases forall₂_getElem? hsp i with ⟨h1, _⟩ | ⟨a, sp, h1, h3, hrs⟩
+  · rw [hin] at h1; cases h1
+  rw [hin] at h1; cases h1
+  have ilt : i < t.ins.length := by
+    have := List.getElem?_eq_some_iff.mp hin; exact this.1
+  have e1 : natToLE t.version 4 = some (Spec.Sighash.le 4 st.nVersion) := by rw [hv]; exact natToLE_spec (by omega)
+  have e2 : natToLE t.locktime 4 = some (Spec.Sighash.le 4 st.nLockTime) := by rw [hl]; exact natToLE_spec (by omega)
+  have e0 : byteOf ht = some [UInt8.ofNat ht] := by simp [byteOf]; omega
+  obtain ⟨ab, a1, a2, a3⟩ := modelAnnex_inv hann
+  have len1 := forall₂_length hins
+  have len2 := forall₂_length hsp
+  have hlen : ¬ spent.length ≠ st.vin.length := by rw [← len1, ← len2]; simp
+  have hst : byteOf (extFlag * 2 + if ab = true then 1 else 0) = (if extFlag * 2 + (if annex.isSome then 1 else 0) ≤ 255 then
+      some [UInt8.ofNat (extFlag * 2 + (if annex.isSome then 1 else 0))] else none) := by
+    rw [a2]; rfl
+  have model : sigHashBip341Pre Cfg.repaired H xonlyOK { tx := t } i extFlag ht =
+      (do
+        let st' ← byteOf (extFlag * 2 + if ab = true then 1 else 0)
+        let single ← bip341Single H t i ht
+        let ext' ← bip341Ext Cfg.repaired H xonlyOK txin extFlag
+        pure ([0] ++ [UInt8.ofNat ht] ++ Spec.Sighash.le 4 st.nVersion ++ Spec.Sighash.le 4 st.nLockTime ++
+          (if ¬ acp ht then
+              H.sha256 (st.vin.map fun i => Spec.Sighash.serOutPoint i.prevout).flatten
+              ++ H.sha256 (spent.map fun o => Spec.Sighash.le 8 o.nValue).flatten
+              ++ H.sha256 (spent.map fun o => Spec.Sighash.serScript o.scriptPubKey).flatten
+              ++ H.sha256 (st.vin.map fun i => Spec.Sighash.le 4 i.nSequence).flatten
+            else []) ++
+          (if base ht ≠ Gen.sighashNone ∧ base ht ≠ Gen.sighashSingle then H.sha256 (st.vout.map Spec.Sighash.serTxOut).flatten
+            else []) ++ st' ++
+          (if acp ht then Spec.Sighash.serOutPoint si.prevout ++ Spec.Sighash.le 8 sp.nValue
+              ++ Spec.Sighash.serScript sp.scriptPubKey ++ Spec.Sighash.le 4 si.nSequence
+            else Spec.Sighash.le 4 i) ++
+          (match annex with | some x => H.sha256 (Spec.Sighash.compactSize x.length ++ x) | none => []) ++
+          single ++ ext', ({ tx := t } : TxObj))) := by
+    simp only [sigHashBip341Pre, hin, e0, e1, e2, Gen.bip341VersionW, Gen.locktimeSerW, Gen.bip341Epoch,
+      bip341Mid_spec H t st spent ht hins hsp, bip341Outs_spec H t st ht houts, a1,
+      bip341Input_spec txin si sp i ht hi hr hrs, bip341Annex_spec H txin annex ab a2 a3 hannlen,
+      Option.pure_def, Option.bind_eq_bind, Option.bind_some]
+  rw [model, hst, bip341Single_spec H t st i ht houts]
+  have hsingle : decide ((if ht = 0 then 1 else ht % 4) = 3) = decide (base ht = Gen.sighashSingle) := f1
+  have hnone : decide ((if ht = 0 then 1 else ht % 4) = 2) = decide (base ht = Gen.sighashNone) := f2
+  have g3 : ((if ht = 0 then 1 else ht % 4) = 3) ↔ base ht = Gen.sighashSingle := by
+    constructor <;> intro h <;> simpa [h] using hsingle
+  have g2 : ((if ht = 0 then 1 else ht % 4) = 2) ↔ base ht = Gen.sighashNone := by
+    constructor <;> intro h <;> simpa [h] using hnone
+  have gacp : (ht / 128 % 2 = 1) ↔ acp ht = true := by
+    constructor <;> intro h <;> simpa [h] using f3
+  have spec : Spec.Sighash.sigMsg H.sha256 st spent i ht = fun extF annex =>
+      (if base ht = Gen.sighashSingle then
+        (st.vout[i]?).map fun o =>
+          [UInt8.ofNat ht] ++ (Spec.Sighash.le 4 st.nVersion ++ Spec.Sighash.le 4 st.nLockTime ++
+          (if ¬ acp ht then
+              H.sha256 (st.vin.map fun i => Spec.Sighash.serOutPoint i.prevout).flatten
+              ++ H.sha256 (spent.map fun o => Spec.Sighash.le 8 o.nValue).flatten
+              ++ H.sha256 (spent.map fun o => Spec.Sighash.serScript o.scriptPubKey).flatten
+              ++ H.sha256 (st.vin.map fun i => Spec.Sighash.le 4 i.nSequence).flatten
+            else []) ++
+          (if base ht ≠ Gen.sighashNone ∧ base ht ≠ Gen.sighashSingle then H.sha256 (st.vout.map Spec.Sighash.serTxOut).flatten
+            else [])) ++ ([UInt8.ofNat (extF * 2 + (if annex.isSome then 1 else 0))] ++
+          (if acp ht then Spec.Sighash.serOutPoint si.prevout ++ Spec.Sighash.le 8 sp.nValue
+              ++ Spec.Sighash.serScript sp.scriptPubKey ++ Spec.Sighash.le 4 si.nSequence
+            else Spec.Sighash.le 4 i) ++
+          (match annex with | some x => H.sha256 (Spec.Sighash.compactSize x.length ++ x) | none => [])) ++
+          H.sha256 (Spec.Sighash.serTxOut o)
+       else some (
+          [UInt8.ofNat ht] ++ (Spec.Sighash.le 4 st.nVersion ++ Spec.Sighash.le 4 st.nLockTime ++
+          (if ¬ acp ht then
+              H.sha256 (st.vin.map fun i => Spec.Sighash.serOutPoint i.prevout).flatten
+              ++ H.sha256 (spent.map fun o => Spec.Sighash.le 8 o.nValue).flatten
+              ++ H.sha256 (spent.map fun o => Spec.Sighash.serScript o.scriptPubKey).flatten
+              ++ H.sha256 (st.vin.map fun i => Spec.Sighash.le 4 i.nSequence).flatten
+            else []) ++
+          (if base ht ≠ Gen.sighashNone ∧ base ht ≠ Gen.sighashSingle then H.sha256 (st.vout.map Spec.Sighash.serTxOut).flatten
+            else [])) ++ ([UInt8.ofNat (extF * 2 + (if annex.isSome then 1 else 0))] ++
+          (if acp ht then Spec.Sighash.serOutPoint si.prevout ++ Spec.Sighash.le 8 sp.nValue
+              ++ Spec.Sighash.serScript sp.scriptPubKey ++ Spec.Sighash.le 4 si.nSequence
+            else Spec.Sighash.le 4 i) ++
+          (match annex with | some x => H.sha256 (Spec.Sighash.compactSize x.length ++ x) | none => [])))) := by
+    funext extF annex
+    simp only [Spec.Sighash.sigMsg, f4, hlen, h2, h3, not_true_eq_false, if_false, gacp]
+    generalize (if ht = 0 then 1 else ht % 4) = ot at g2 g3
+    by_cases c : base ht = Gen.sighashSingle
+    · have o3 : ot = 3 := g3.mpr c
+      subst o3
+      simp only [c, if_true, ne_eq, not_true_eq_false, and_false, if_false, List.append_nil]
+      cases st.vout[i]? <;> simp only [Option.map_none, Option.map_some, List.append_assoc] <;> rfl
+    · have o3 : ¬ ot = 3 := fun h => c (g3.mp h)
+      simp only [c, o3, if_false, g2, ne_eq, not_false_eq_true, and_true, List.append_assoc]
+      try rfl
+  have extBytes : ([UInt8.ofNat 0] ++ Spec.Sighash.le 4 0xFFFFFFFF : Bytes) = Gen.bip342Ext := by decide
+  unfold modelExt at hext
+  by_cases x1 : extFlag = 1
+  · rw [if_pos x1, Option.map_eq_some_iff] at hext
+    obtain ⟨lh, hlh, hx⟩ := hext
+    subst hx; subst x1
+    have sp255 : (1 * 2 + if annex.isSome = true then 1 else 0) ≤ 255 := by split <;> omega
+    simp only [Spec.Sighash.taprootMsg, spec, bip341Ext, hlh, if_true, sp255, Option.pure_def, Option.bind_eq_bind,
+      Option.bind_some]
+    by_cases c : base ht = Gen.sighashSingle
+    · simp only [c, if_true]
+      cases st.vout[i]? with
+      | none => rfl
+      | some o =>
+        simp only [Option.map_some, Option.bind_some, List.append_assoc, List.cons_append, List.nil_append, ← extBytes]
+        rfl
+    · simp only [c, if_false, Option.map_some, Option.bind_some, List.append_assoc, List.cons_append, List.nil_append,
+        List.append_nil, ← extBytes]
+      rfl
+  · rw [if_neg x1] at hext
+    by_cases x0 : extFlag = 0
+    · rw [if_pos x0] at hext; cases hext; subst x0
+      have sp255 : (0 * 2 + if annex.isSome = true then 1 else 0) ≤ 255 := by split <;> omega
+      simp only [Spec.Sighash.taprootMsg, spec, bip341Ext, if_true, sp255, Option.pure_def, Option.bind_eq_bind,
+        Option.bind_some, Nat.zero_ne_one, if_false]
+      by_cases c : base ht = Gen.sighashSingle
+      · simp only [c, if_true]
+        cases st.vout[i]? with
+        | none => rfl
+        | some o =>
+          simp only [Option.map_some, Option.bind_some, List.append_assoc, List.cons_append, List.nil_append, List.append_nil]
+          rfl
+      · simp only [c, if_false, Option.map_some, Option.bind_some, List.append_assoc, List.cons_append, List.nil_append,
+          List.append_nil]
+        rfl
+    · rw [if_neg x0] at hext; cases hext
+
+/-! ### legacy -/
+
+theorem blank_eq : Gen.legacyBlankOut = Spec.Sighash.nullTxOut := by decide
+
+theorem emptyScript_serialize : Script.serialize { cmds := [] } = some (Spec.Sighash.compactSize 0) := by decide
+
+theorem flatten_only_at {α} (g : Nat → α → Bytes) (l : List α) (k i : Nat) :
+    ((l.zipIdx k).map fun (p : α × Nat) => if p.2 ≠ i then [] else g p.2 p.1).flatten =
+      if k ≤ i then (match l[i - k]? with | some a => g i a | none => []) else [] := by
+  induction l generalizing k with
+  | nil => simp
+  | cons a l ih =>
+    simp only [List.zipIdx_cons, List.map_cons, List.flatten_cons, ih]
+    by_cases h : k = i
+    · subst h; simp; intro h; omega
+    · by_cases h2 : k ≤ i
+      · have h3 : k + 1 ≤ i := by omega
+        have h4 : i - k = (i - (k + 1)) + 1 := by omega
+        simp [h, h2, h3, h4]
+      · have h3 : ¬ k + 1 ≤ i := by omega
+        simp [h, h2, h3]
+
+theorem legacyIns_spec (i ht : Nat) (redeem : Option Script) (codeS : Script) (codeRaw : Bytes)
+    (hraw : rawSerialize codeS = some codeRaw) (hlen : codeRaw.length < 2 ^ 64)
+    (hs : decide (base ht = Gen.sighashSingle) = Spec.Sighash.isSingle ht)
+    (hn : decide (base ht = Gen.sighashNone) = Spec.Sighash.isNone ht)
+    {ins : List TxIn} {vin : List Spec.Sighash.TxIn} (h : All₂ RepIn ins vin) (k : Nat)
+    (hcode : ∀ txin, k ≤ i → ins[i - k]? = some txin → legacyCode redeem txin = some codeS) :
+    legacyIns i ht redeem k ins =
+      some ((vin.zipIdx k).map fun (p : Spec.Sighash.TxIn × Nat) =>
+        if acp ht ∧ p.2 ≠ i then []
+        else Spec.Sighash.serOutPoint p.1.prevout
+          ++ (if p.2 = i then Spec.Sighash.serScript codeRaw else Spec.Sighash.compactSize 0)
+          ++ Spec.Sighash.le 4 (if p.2 ≠ i ∧ (Spec.Sighash.isSingle ht ∨ Spec.Sighash.isNone ht) then 0 else p.1.nSequence)).flatten := by
+  induction h generalizing k with
+  | nil => rfl
+  | @cons txin si r vr hab _ ih =>
+    obtain ⟨r1, r2, r3, r4, r5⟩ := hab
+    have ihk := ih (k + 1) (fun txin' hk hx => hcode txin' (by omega) (by
+      have : i - k = (i - (k + 1)) + 1 := by omega
+      rw [this]; simpa using hx))
+    have e3 : natToLE txin.prevIndex 4 = some (Spec.Sighash.le 4 si.prevout.n) := by rw [r2]; exact natToLE_spec (by omega)
+    have e0 : natToLE 0 4 = some (Spec.Sighash.le 4 0) := natToLE_spec (by omega)
+    have e4 : natToLE txin.sequence 4 = some (Spec.Sighash.le 4 si.nSequence) := by rw [r3]; exact natToLE_spec (by omega)
+    have rng0 : inRange 0 Gen.maxSequence = true := by decide
+    have rngs : inRange txin.sequence Gen.maxSequence = true := by simp [inRange, Gen.maxSequence]; omega
+    rw [← hs, ← hn]
+    simp only [legacyIns, List.zipIdx_cons, List.map_cons, List.flatten_cons, ihk, ← hs, ← hn]
+    by_cases hk : k = i
+    · subst hk
+      have hc := hcode txin (Nat.le_refl _) (by simp)
+      simp [hc, rngs, TxIn.serialize, Gen.txinSerIndexW, Gen.sequenceSerW, e3, e4, script_serialize_spec hraw hlen,
+        Spec.Sighash.serOutPoint, r1]
+    · by_cases hb : base ht = Gen.sighashNone ∨ base ht = Gen.sighashSingle
+      · have hb' : (decide (base ht = Gen.sighashSingle) = true ∨ decide (base ht = Gen.sighashNone) = true) := by
+          rcases hb with hb | hb <;> simp [hb]
+        have hb2 : base ht = Gen.sighashSingle ∨ base ht = Gen.sighashNone := hb.symm
+        cases ha : acp ht <;>
+          simp [hk, hb, hb2, ha, rng0, TxIn.serialize, Gen.txinSerIndexW, Gen.sequenceSerW, e3, e0, emptyScript_serialize,
+            Spec.Sighash.serOutPoint, r1]
+      · have hb' : ¬ (decide (base ht = Gen.sighashSingle) = true ∨ decide (base ht = Gen.sighashNone) = true) := by
+          simp only [decide_eq_true_eq]; intro h; exact hb (h.symm)
+        have hb2 : ¬ (base ht = Gen.sighashSingle ∨ base ht = Gen.sighashNone) := fun h => hb h.symm
+        cases ha : acp ht <;>
+          simp [hk, hb, hb2, ha, rngs, TxIn.serialize, Gen.txinSerIndexW, Gen.sequenceSerW, e3, e4, emptyScript_serialize,
+            Spec.Sighash.serOutPoint, r1]
+
+theorem legacyOuts_none (i ht : Nat) (h : base ht = Gen.sighashNone) (j : Nat) (outs : List TxOut) :
+    legacyOuts i ht j outs = some [] := by
+  induction outs generalizing j with
+  | nil => rfl
+  | cons o r ih => simp only [legacyOuts, h, if_true, ih]
+
+theorem legacyOuts_all (i ht : Nat) (h1 : base ht ≠ Gen.sighashNone) (h2 : base ht ≠ Gen.sighashSingle)
+    {outs : List TxOut} {vout : List Spec.Sighash.TxOut} (houts : All₂ RepOut outs vout) (j : Nat) :
+    legacyOuts i ht j outs = some (vout.map Spec.Sighash.serTxOut).flatten := by
+  induction houts generalizing j with
+  | nil => rfl
+  | cons hab _ ih => simp [legacyOuts, h1, h2, txout_serialize_spec hab, ih]
+
+theorem legacyOuts_single (i ht : Nat) (h : base ht = Gen.sighashSingle)
+    {outs : List TxOut} {vout : List Spec.Sighash.TxOut} (houts : All₂ RepOut outs vout) (j : Nat)
+    (hj : j ≤ i) (hi : i - j < outs.length) :
+    legacyOuts i ht j outs =
+      some (((vout.take (i + 1 - j)).zipIdx j).map fun (p : Spec.Sighash.TxOut × Nat) =>
+        if p.2 ≠ i then Spec.Sighash.nullTxOut else Spec.Sighash.serTxOut p.1).flatten := by
+  have hne : Gen.sighashSingle ≠ Gen.sighashNone := by decide
+  induction houts generalizing j with
+  | nil => simp at hi
+  | @cons o so r vr hab _ ih =>
+    by_cases hk : j = i
+    · subst hk
+      have : j + 1 - j = 1 := by omega
+      simp [legacyOuts, h, hne, this, txout_serialize_spec hab]
+    · have h3 : i + 1 - j = (i + 1 - (j + 1)) + 1 := by omega
+      have ih' := ih (j + 1) (by omega) (by simp at hi; omega)
+      simp [legacyOuts, h, hne, hk, h3, ih', blank_eq]
+
+theorem zipIdx_map_all {α} (f : Nat → α → Bytes) (g : α → Bytes) (l : List α) (k : Nat) (h : ∀ j a, f j a = g a) :
+    ((l.zipIdx k).map fun (p : α × Nat) => f p.2 p.1).flatten = (l.map g).flatten := by
+  induction l generalizing k with
+  | nil => rfl
+  | cons a l ih => rw [List.zipIdx_cons, List.map_cons, List.flatten_cons, ih, List.map_cons, List.flatten_cons, h]
+
+
+def legacyOfSpec : Spec.Sighash.LegacyResult → LegacyPre
+  | .one => .one
+  | .preimage b => .pre b
+
+theorem legacy_pre_spec (t : Tx) (st : Spec.Sighash.Tx) (i ht : Nat) (redeem : Option Script) (codeS : Script)
+    (codeRaw : Bytes) (rep : Rep t st) (hht : ht ∈ Spec.Sighash.stdHashTypes)
+    (hcode : ∀ txin, t.ins[i]? = some txin → legacyCode redeem txin = some codeS)
+    (hraw : rawSerialize codeS = some codeRaw) (hlen : codeRaw.length < 2 ^ 64)
+    (hsep : Spec.Sighash.stripCodeSep codeRaw.length codeRaw = codeRaw) :
+    sigHashLegacyPre t i redeem ht = some (legacyOfSpec (Spec.Sighash.legacy st i codeRaw ht)) := by
+  obtain ⟨hv, hl, rv, rl, nin, nout, hins, houts⟩ := rep
+  obtain ⟨ha, hs, hn, hlt, _, _⟩ := ht_facts ht hht
+  have len1 := forall₂_length hins
+  have len2 := forall₂_length houts
+  have gS : Spec.Sighash.isSingle ht = true ↔ base ht = Gen.sighashSingle := by rw [← hs]; simp
+  have gN : Spec.Sighash.isNone ht = true ↔ base ht = Gen.sighashNone := by rw [← hn]; simp
+  unfold sigHashLegacyPre Spec.Sighash.legacy
+  by_cases c1 : i ≥ t.ins.length
+  · have c1' : i ≥ st.vin.length := by rw [← len1]; exact c1
+    rw [if_pos c1, if_pos c1']; rfl
+  have c1' : ¬ i ≥ st.vin.length := by rw [← len1]; exact c1
+  rw [if_neg c1, if_neg c1']
+  by_cases c2 : base ht = Gen.sighashSingle ∧ i ≥ t.outs.length
+  · have c2' : Spec.Sighash.isSingle ht = true ∧ i ≥ st.vout.length := by rw [gS, ← len2]; exact c2
+    rw [if_pos c2, if_pos c2']; rfl
+  have c2' : ¬ (Spec.Sighash.isSingle ht = true ∧ i ≥ st.vout.length) := by rw [gS, ← len2]; exact c2
+  rw [if_neg c2, if_neg c2']
+  have e1 : natToLE t.version 4 = some (Spec.Sighash.le 4 st.nVersion) := by rw [hv]; exact natToLE_spec (by omega)
+  have e2 : natToLE t.locktime 4 = some (Spec.Sighash.le 4 st.nLockTime) := by rw [hl]; exact natToLE_spec (by omega)
+  have e6 : natToLE ht 4 = some (Spec.Sighash.le 4 ht) := natToLE_spec (by omega)
+  have insEq := legacyIns_spec i ht redeem codeS codeRaw hraw hlen hs hn hins 0
+    (fun txin _ hx => hcode txin (by simpa using hx))
+  have ssc : Spec.Sighash.serializeScriptCode codeRaw = Spec.Sighash.serScript codeRaw := by
+    simp [Spec.Sighash.serializeScriptCode, hsep]
+  have ilt : i < t.ins.length := by omega
+  -- counts
+  have inCount : legacyInCount t ht = some (if Spec.Sighash.anyoneCanPay ht = true then Spec.Sighash.compactSize 1
+      else Spec.Sighash.compactSize st.vin.length) := by
+    rw [← ha, ← len1]
+    cases h : acp ht <;> simp [legacyInCount, h, compactSize_eq nin, compactSize_eq (by omega : 1 < 2 ^ 64)]
+  have outCount : legacyOutCount t i ht = some (Spec.Sighash.compactSize
+      (if Spec.Sighash.isNone ht = true then 0 else if Spec.Sighash.isSingle ht = true then i + 1 else st.vout.length)) := by
+    unfold legacyOutCount
+    by_cases n : base ht = Gen.sighashNone
+    · rw [if_pos n, if_pos (gN.mpr n)]; exact compactSize_eq (by omega)
+    · rw [if_neg n, if_neg (fun h => n (gN.mp h))]
+      by_cases sgl : base ht = Gen.sighashSingle
+      · rw [if_pos sgl, if_pos (gS.mpr sgl)]; exact compactSize_eq (by omega)
+      · rw [if_neg sgl, if_neg (fun h => sgl (gS.mp h)), ← len2]; exact compactSize_eq nout
+  -- inputs
+  have insSpec : ((st.vin.zipIdx 0).map fun (p : Spec.Sighash.TxIn × Nat) =>
+        if acp ht ∧ p.2 ≠ i then []
+        else Spec.Sighash.serOutPoint p.1.prevout
+          ++ (if p.2 = i then Spec.Sighash.serScript codeRaw else Spec.Sighash.compactSize 0)
+          ++ Spec.Sighash.le 4 (if p.2 ≠ i ∧ (Spec.Sighash.isSingle ht ∨ Spec.Sighash.isNone ht) then 0 else p.1.nSequence)).flatten
+      = (if Spec.Sighash.anyoneCanPay ht = true then
+          (match st.vin[i]? with | some inp => Spec.Sighash.legacyInput i ht codeRaw i inp | none => [])
+        else Spec.Sighash.concatIdx (Spec.Sighash.legacyInput i ht codeRaw) st.vin) := by
+    rw [← ha]
+    cases h : acp ht
+    · simp only [Bool.false_eq_true, false_and, if_false, Spec.Sighash.concatIdx, Spec.Sighash.legacyInput, ssc]
+    · have := flatten_only_at (fun j (a : Spec.Sighash.TxIn) => Spec.Sighash.legacyInput i ht codeRaw j a) st.vin 0 i
+      simp only [Nat.zero_le, if_true, Nat.sub_zero] at this
+      simp only [true_and, if_true]
+      refine Eq.trans ?_ (this.trans ?_)
+      · simp only [Spec.Sighash.legacyInput, ssc]
+      · cases st.vin[i]? <;> rfl
+  -- outputs
+  have outsSpec : legacyOuts i ht 0 t.outs = some (Spec.Sighash.concatIdx (Spec.Sighash.legacyOutput i ht)
+      (st.vout.take (if Spec.Sighash.isNone ht = true then 0 else if Spec.Sighash.isSingle ht = true then i + 1 else st.vout.length))) := by
+    by_cases n : base ht = Gen.sighashNone
+    · rw [legacyOuts_none i ht n, if_pos (gN.mpr n)]; rfl
+    · rw [if_neg (fun h => n (gN.mp h))]
+      by_cases sgl : base ht = Gen.sighashSingle
+      · have io : i < t.outs.length := by
+          have := c2; simp only [not_and] at this; have := this sgl; omega
+        rw [if_pos (gS.mpr sgl), legacyOuts_single i ht sgl houts 0 (Nat.zero_le _) (by omega)]
+        simp only [Spec.Sighash.concatIdx, Spec.Sighash.legacyOutput, gS.mpr sgl, true_and, Nat.sub_zero]
+      · have ns : ¬ Spec.Sighash.isSingle ht = true := fun h => sgl (gS.mp h)
+        rw [if_neg ns, legacyOuts_all i ht n sgl houts 0, List.take_length]
+        simp only [Spec.Sighash.concatIdx, Spec.Sighash.legacyOutput, ns, false_and, if_false, Bool.false_eq_true]
+        rw [zipIdx_map_all (fun _ o => Spec.Sighash.serTxOut o) Spec.Sighash.serTxOut st.vout 0 (fun _ _ => rfl)]
+  simp only [legacyBody, Gen.legacyVersionW, Gen.locktimeSerW, Gen.legacyHashTypeW, e1, e2, e6, inCount, insEq, insSpec,
+    outCount, outsSpec, Option.pure_def, Option.bind_eq_bind, Option.bind_some, Option.map_some, legacyOfSpec]
+  cases Spec.Sighash.anyoneCanPay ht <;> simp only [List.append_assoc, if_true, if_false, Bool.false_eq_true] <;> rfl
+
+/-! ### history independence of the repaired code -/
+
+/-- `f` reads only the fields of the object and returns the object unchanged -/
+def Framed {α} (f : TxObj → Option (α × TxObj)) : Prop :=
+  ∀ o, f o = (f { tx := o.tx }).map fun r => (r.1, o)
+
+theorem framed_of_pure {α} (g : Tx → Option α) : Framed (fun o => (g o.tx).map fun a => (a, o)) := by
+  intro o; show (g o.tx).map _ = ((g o.tx).map _).map _; cases g o.tx <;> rfl
+
+theorem hashPrevouts_framed (H : Hashes) : Framed (hashPrevouts Cfg.repaired H) := by
+  intro o; simp only [hashPrevouts, Cfg.repaired]; cases prevoutsBytes o.tx.ins <;> rfl
+theorem hashSequence_framed (H : Hashes) : Framed (hashSequence Cfg.repaired H) := by
+  intro o; simp only [hashSequence, Cfg.repaired]; cases sequencesBytes o.tx.ins <;> rfl
+theorem hashOutputs_framed (H : Hashes) : Framed (hashOutputs Cfg.repaired H) := by
+  intro o; simp only [hashOutputs, Cfg.repaired]; cases serOuts o.tx.outs <;> rfl
+theorem shaPrevouts_framed (H : Hashes) : Framed (shaPrevouts Cfg.repaired H) := by
+  intro o; simp only [shaPrevouts, Cfg.repaired]; cases prevoutsBytes o.tx.ins <;> rfl
+theorem shaAmounts_framed (H : Hashes) : Framed (shaAmounts Cfg.repaired H) := by
+  intro o; simp only [shaAmounts, Cfg.repaired]; cases amountsBytes o.tx.ins <;> rfl
+theorem shaScriptPubkeys_framed (H : Hashes) : Framed (shaScriptPubkeys Cfg.repaired H) := by
+  intro o; simp only [shaScriptPubkeys, Cfg.repaired]; cases spksBytes o.tx.ins <;> rfl
+theorem shaSequences_framed (H : Hashes) : Framed (shaSequences Cfg.repaired H) := by
+  intro o; simp only [shaSequences, Cfg.repaired]; cases sequencesBytes o.tx.ins <;> rfl
+theorem shaOutputs_framed (H : Hashes) : Framed (shaOutputs Cfg.repaired H) := by
+  intro o; simp only [shaOutputs, Cfg.repaired]; cases serOuts o.tx.outs <;> rfl
+
+theorem framed_const {α} (a : α) : Framed (fun o => some (a, o)) := fun _ => rfl
+
+/-- sequencing preserves framing -/
+theorem framed_bind {α β} {f : TxObj → Option (α × TxObj)} {k : α → TxObj → Option (β × TxObj)}
+    (hf : Framed f) (hk : ∀ a, Framed (k a)) :
+    Framed (fun o => (f o).bind fun r => k r.1 r.2) := by
+  intro o
+  simp only
+  rw [hf o]
+  cases h : f { tx := o.tx } with
+  | none => rfl
+  | some r =>
+    have hr : r.2 = { tx := o.tx } := by
+      have := hf { tx := o.tx }
+      rw [h] at this
+      simp at this
+      exact (congrArg Prod.snd this)
+    simp only [Option.map_some, Option.bind_some]
+    rw [hk r.1 o, hr]
+
+/-- a pure step in the middle -/
+theorem framed_bind_pure {α β} (x : Tx → Option α) {k : α → TxObj → Option (β × TxObj)} (hk : ∀ a, Framed (k a)) :
+    Framed (fun o => (x o.tx).bind fun a => k a o) := by
+  intro o
+  simp only
+  cases x o.tx with
+  | none => rfl
+  | some a => simp only [Option.bind_some]; exact hk a o
+
+theorem framed_ite {α} (c : Prop) [Decidable c] {f g : TxObj → Option (α × TxObj)} (hf : Framed f) (hg : Framed g) :
+    Framed (fun o => if c then f o else g o) := by
+  intro o
+  by_cases h : c
+  · simp only [h, if_true]; exact hf o
+  · simp only [h, if_false]; exact hg o
+
+theorem frame_step {α} {f : TxObj → Option (α × TxObj)} (hf : Framed f) (o : TxObj) :
+    (f o = none ∧ f { tx := o.tx } = none) ∨
+    ∃ a, f o = some (a, o) ∧ f { tx := o.tx } = some (a, { tx := o.tx }) := by
+  have h1 := hf o
+  have h2 := hf { tx := o.tx }
+  cases h : f { tx := o.tx } with
+  | none => left; rw [h] at h1; exact ⟨h1, rfl⟩
+  | some r =>
+    right
+    rw [h] at h1 h2
+    simp only [Option.map_some, Option.some.injEq] at h1 h2
+    refine ⟨r.1, h1, ?_⟩
+    rw [h2]
+
+theorem bip143Prevouts_framed (H : Hashes) (ht : Nat) : Framed (fun o => bip143Prevouts Cfg.repaired H o ht) := by
+  unfold bip143Prevouts
+  exact framed_ite _ (hashPrevouts_framed H) (framed_const _)
+theorem bip143Sequence_framed (H : Hashes) (ht : Nat) : Framed (fun o => bip143Sequence Cfg.repaired H o ht) := by
+  unfold bip143Sequence
+  exact framed_ite _ (hashSequence_framed H) (framed_const _)
+theorem bip143Outputs_framed (H : Hashes) (i ht : Nat) : Framed (fun o => bip143Outputs Cfg.repaired H o i ht) := by
+  intro o
+  show bip143Outputs _ _ o _ _ = (bip143Outputs _ _ { tx := o.tx } _ _).map _
+  unfold bip143Outputs
+  by_cases c : base ht ≠ Gen.sighashSingle ∧ base ht ≠ Gen.sighashNone
+  · rw [if_pos c, if_pos c]; exact hashOutputs_framed H o
+  · rw [if_neg c, if_neg c]
+    by_cases d : base ht = Gen.sighashSingle ∧ i < o.tx.outs.length
+    · rw [if_pos d, if_pos d]
+      cases h : o.tx.outs[i]? with
+      | none => rfl
+      | some out => cases hs : out.serialize <;> simp [hs]
+    · rw [if_neg d, if_neg d]; rfl
+
+theorem sigHashBip143Pre_framed (H : Hashes) (i : Nat) (r w : Option Script) (ht : Nat) :
+    Framed (fun o => sigHashBip143Pre Cfg.repaired H o i r w ht) := by
+  intro o
+  simp only [sigHashBip143Pre, Option.pure_def, Option.bind_eq_bind]
+  cases o.tx.ins[i]? with
+  | none => rfl
+  | some txin =>
+    simp only [Option.bind_some]
+    cases natToLE o.tx.version Gen.bip143VersionW with
+    | none => rfl
+    | some v =>
+      simp only [Option.bind_some]
+      rcases frame_step (bip143Prevouts_framed H ht) o with ⟨h1, h2⟩ | ⟨a, h1, h2⟩
+      · simp only [h1, h2, Option.bind_none, Option.map_none]
+      simp only [h1, h2, Option.bind_some]
+      rcases frame_step (bip143Sequence_framed H ht) o with ⟨h1, h2⟩ | ⟨b, h1, h2⟩
+      · simp only [h1, h2, Option.bind_none, Option.map_none]
+      simp only [h1, h2, Option.bind_some]
+      cases bip143Input txin r w with
+      | none => rfl
+      | some inp =>
+        simp only [Option.bind_some]
+        rcases frame_step (bip143Outputs_framed H i ht) o with ⟨h1, h2⟩ | ⟨c, h1, h2⟩
+        · simp only [h1, h2, Option.bind_none, Option.map_none]
+        simp only [h1, h2, Option.bind_some]
+        cases natToLE o.tx.locktime Gen.locktimeSerW with
+        | none => rfl
+        | some lt => cases natToLE ht Gen.bip143HashTypeW <;> rfl
+
+theorem bip341Mid_framed (H : Hashes) (ht : Nat) : Framed (fun o => bip341Mid Cfg.repaired H o ht) := by
+  intro o
+  show bip341Mid _ _ o _ = (bip341Mid _ _ { tx := o.tx } _).map _
+  unfold bip341Mid
+  by_cases c : (!acp ht) = true
+  · rw [if_pos c, if_pos c]
+    simp only [Option.pure_def, Option.bind_eq_bind]
+    rcases frame_step (shaPrevouts_framed H) o with ⟨h1, h2⟩ | ⟨a, h1, h2⟩
+    · simp only [h1, h2, Option.bind_none, Option.map_none]
+    simp only [h1, h2, Option.bind_some]
+    rcases frame_step (shaAmounts_framed H) o with ⟨h1, h2⟩ | ⟨b, h1, h2⟩
+    · simp only [h1, h2, Option.bind_none, Option.map_none]
+    simp only [h1, h2, Option.bind_some]
+    rcases frame_step (shaScriptPubkeys_framed H) o with ⟨h1, h2⟩ | ⟨c', h1, h2⟩
+    · simp only [h1, h2, Option.bind_none, Option.map_none]
+    simp only [h1, h2, Option.bind_some]
+    rcases frame_step (shaSequences_framed H) o with ⟨h1, h2⟩ | ⟨d, h1, h2⟩
+    · simp only [h1, h2, Option.bind_none, Option.map_none]
+    simp only [h1, h2, Option.bind_some, Option.map_some]
+  · rw [if_neg c, if_neg c]; rfl
+
+theorem bip341Outs_framed (H : Hashes) (ht : Nat) : Framed (fun o => bip341Outs Cfg.repaired H o ht) := by
+  unfold bip341Outs
+  exact framed_ite _ (shaOutputs_framed H) (framed_const _)
+
+theorem sigHashBip341Pre_framed (H : Hashes) (x : Bytes → Bool) (i e ht : Nat) :
+    Framed (fun o => sigHashBip341Pre Cfg.repaired H x o i e ht) := by
+  intro o
+  simp only [sigHashBip341Pre, Option.pure_def, Option.bind_eq_bind]
+  cases o.tx.ins[i]? with
+  | none => rfl
+  | some txin =>
+    simp only [Option.bind_some]
+    cases byteOf ht with
+    | none => rfl
+    | some hb =>
+    cases natToLE o.tx.version Gen.bip341VersionW with
+    | none => rfl
+    | some v =>
+    cases natToLE o.tx.locktime Gen.locktimeSerW with
+    | none => rfl
+    | some lt =>
+      simp only [Option.bind_some]
+      rcases frame_step (bip341Mid_framed H ht) o with ⟨h1, h2⟩ | ⟨a, h1, h2⟩
+      · simp only [h1, h2, Option.bind_none, Option.map_none]
+      simp only [h1, h2, Option.bind_some]
+      rcases frame_step (bip341Outs_framed H ht) o with ⟨h1, h2⟩ | ⟨b, h1, h2⟩
+      · simp only [h1, h2, Option.bind_none, Option.map_none]
+      simp only [h1, h2, Option.bind_some]
+      cases txin.witness.hasAnnex Cfg.repaired with
+      | none => rfl
+      | some an =>
+      simp only [Option.bind_some]
+      cases byteOf (e * 2 + if an = true then 1 else 0) with
+      | none => rfl
+      | some st =>
+      cases bip341Input txin i ht with
+      | none => rfl
+      | some inp =>
+      cases bip341Annex H txin an with
+      | none => rfl
+      | some ann =>
+      simp only [Option.bind_some]
+      cases bip341Single H o.tx i ht with
+      | none => rfl
+      | some sg =>
+      cases bip341Ext Cfg.repaired H x txin e <;> rfl
+
+theorem framed_map {α β} {f : TxObj → Option (α × TxObj)} (hf : Framed f) (g : α → β) :
+    Framed (fun o => (f o).map fun r => (g r.1, r.2)) := by
+  intro o
+  rcases frame_step hf o with ⟨h1, h2⟩ | ⟨a, h1, h2⟩ <;> simp only [h1, h2, Option.map_none, Option.map_some]
+
+theorem sigHashBip143_framed (H : Hashes) (i : Nat) (r w : Option Script) (ht : Nat) :
+    Framed (fun o => (sigHashBip143 Cfg.repaired H o i r w ht).map fun p => (SigHash.int p.1, p.2)) :=
+  framed_map (framed_map (sigHashBip143Pre_framed H i r w ht) (fun p => beToNat (H.hash256 p))) SigHash.int
+
+theorem sigHashBip341_framed (H : Hashes) (x : Bytes → Bool) (i e ht : Nat) :
+    Framed (fun o => (sigHashBip341 Cfg.repaired H x o i e ht).map fun p => (SigHash.bytes p.1, p.2)) :=
+  framed_map (framed_map (sigHashBip341Pre_framed H x i e ht) _) _
+
+/-- every query of the repaired code reads only the fields and leaves the object as it was -/
+theorem runQuery_framed (H : Hashes) (x : Bytes → Bool) (q : Query) :
+    Framed (fun o => runQuery Cfg.repaired H x o q) := by
+  cases q with
+  | legacy i r ht =>
+    intro o
+    simp only [runQuery]
+    cases sigHashLegacy H.hash256 o.tx i r ht <;> rfl
+  | bip143 i r w ht => exact sigHashBip143_framed H i r w ht
+  | bip341 i e ht => exact sigHashBip341_framed H x i e ht
+  | auto i ht =>
+    intro o
+    simp only [runQuery, sigHash, Option.pure_def, Option.bind_eq_bind]
+    cases o.tx.ins[i]? with
+    | none => rfl
+    | some txin =>
+      simp only [Option.bind_some]
+      cases route Cfg.repaired txin with
+      | none => rfl
+      | some rt =>
+        simp only [Option.bind_some]
+        cases rt with
+        | legacy r => simp only []; cases sigHashLegacy H.hash256 o.tx i r ht <;> rfl
+        | bip143 r w => exact sigHashBip143_framed H i r w ht o
+        | bip341 e => exact sigHashBip341_framed H x i e ht o
+
+/-- what a fresh object with the given fields answers -/
+def freshAnswer (H : Hashes) (x : Bytes → Bool) (t : Tx) (q : Query) : Option SigHash :=
+  (runQuery Cfg.repaired H x { tx := t } q).map (·.1)
+
+/-- the answers an operation list must produce: each query is answered for the fields as they are
+    at that moment (after the edits that precede it), by a fresh object -/
+def expectedAnswers (H : Hashes) (x : Bytes → Bool) : Tx → List Op → List (Option SigHash)
+  | _, [] => []
+  | t, .edit f :: r => expectedAnswers H x (f t) r
+  | t, .query q :: r => freshAnswer H x t q :: expectedAnswers H x t r
+
+theorem run_repaired (H : Hashes) (x : Bytes → Bool) (ops : List Op) (o : TxObj) :
+    run Cfg.repaired H x o ops = expectedAnswers H x o.tx ops := by
+  induction ops generalizing o with
+  | nil => rfl
+  | cons op r ih =>
+    cases op with
+    | edit f => simp only [run, expectedAnswers]; exact ih _
+    | query q =>
+      simp only [run, expectedAnswers, freshAnswer]
+      rcases frame_step (runQuery_framed H x q) o with ⟨h1, h2⟩ | ⟨a, h1, h2⟩
+      · simp only [h1, h2, Option.map_none]; rw [ih o]
+      · simp only [h1, h2, Option.map_some]; rw [ih o]
+
+/-! ### annex, ext_flag, tap leaf, dispatcher -/
+
+theorem u8_eq_iff_toNat (b : UInt8) (n : Nat) (h : n < 256) : (b.toNat == n) = decide (b = UInt8.ofNat n) := by
+  by_cases hb : b = UInt8.ofNat n
+  · subst hb; simp [u8_ofNat_toNat, Nat.mod_eq_of_lt h]
+  · have : ¬ b.toNat = n := by
+      intro e; apply hb; rw [← e]; simp
+    simp [hb, this]
+
+theorem fromEnd_one (items : List Bytes) : fromEnd items 1 = items.getLast? := by
+  unfold fromEnd
+  cases items with
+  | nil => rfl
+  | cons a l => simp [List.getLast?_eq_getElem?]
+
+/-- the annex the code uses is BIP341's annex, provided the last witness element is not empty
+    (the code raises IndexError on an empty last element of a stack of two or more) -/
+theorem modelAnnex_spec (w : Witness) (hlast : w.items.length < 2 ∨ w.items.getLast? ≠ some []) :
+    modelAnnex Cfg.repaired w = some (Spec.Sighash.annexOf w.items) := by
+  unfold modelAnnex Witness.hasAnnex Spec.Sighash.annexOf
+  simp only [Cfg.repaired]
+  by_cases h2 : w.items.length < 2
+  · have : ¬ w.items.length ≥ 2 := by omega
+    simp [h2, this]
+  · have h2' : w.items.length ≥ 2 := by omega
+    simp only [h2, if_false, h2', if_true]
+    cases hl : w.items.getLast? with
+    | none => simp
+    | some last =>
+      cases last with
+      | nil =>
+        rcases hlast with h | h
+        · omega
+        · exact absurd hl h
+      | cons b r =>
+        simp only [Option.pure_def, Option.bind_eq_bind, Option.bind_some, Gen.annexTag, fromEnd_one, hl]
+        rw [u8_eq_iff_toNat b 80 (by omega)]
+        by_cases hb : b = 0x50
+        · subst hb; simp
+        · have : ¬ b = UInt8.ofNat 80 := hb
+          simp [this, hb]
+
+theorem hasAnnex_spec (w : Witness) (hlast : w.items.length < 2 ∨ w.items.getLast? ≠ some []) :
+    w.hasAnnex Cfg.repaired = some (Spec.Sighash.annexOf w.items).isSome := by
+  obtain ⟨a, h1, h2, _⟩ := modelAnnex_inv (modelAnnex_spec w hlast)
+  rw [h1, h2]
+
+/-- key path / script path: the code's `ext_flag` is the one BIP341 implies (the annex is not counted) -/
+theorem extFlagOf_spec (w : Witness) (hlast : w.items.length < 2 ∨ w.items.getLast? ≠ some []) :
+    extFlagOf Cfg.repaired w = some (Spec.Sighash.extFlagOf w.items) := by
+  simp only [extFlagOf, hasAnnex_spec w hlast, Option.pure_def, Option.bind_eq_bind, Option.bind_some,
+    Spec.Sighash.extFlagOf, Spec.Sighash.scriptPath, Spec.Sighash.withoutAnnex]
+  by_cases hsome : (Spec.Sighash.annexOf w.items).isSome = true
+  · simp only [hsome, if_true, decide_eq_true_eq, List.length_dropLast]
+    by_cases h : w.items.length - 1 > 1
+    · have : w.items.length - 1 ≥ 2 := h
+      simp [h, this]
+    · have : ¬ w.items.length - 1 ≥ 2 := by omega
+      simp [h, this]
+  · simp only [hsome, if_false, decide_eq_true_eq]
+    by_cases h : w.items.length > 1
+    · have : w.items.length ≥ 2 := h
+      simp [h, this]
+    · have : ¬ w.items.length ≥ 2 := by omega
+      simp [h, this]
+
+theorem tapLeafTag_eq : Gen.tapLeafTag = Spec.Sighash.tagTapLeaf := by decide
+theorem tapSighashTag_eq : Gen.tapSighashTag = Spec.Sighash.tagTapSighash := by decide
+
+/-- a canonically encoded script is re-serialised to itself (C04 round trip) -/
+theorem reserialize_canonical (cs : List Cmd) (raw : Bytes) (wf : ∀ c ∈ cs, CmdWF c) (h : serCmds cs = some raw)
+    (hl : raw.length < 2 ^ 63) :
+    Script.serialize (parseRaw raw) = some (Spec.Sighash.serScript raw) := by
+  rw [parseRaw_serCmds cs raw wf h]
+  have : rawSerialize { cmds := canon cs, raw := none } = some raw := by simp [rawSerialize, serCmds_canon, h]
+  exact script_serialize_spec this (by omega)
+
+/-- the leaf hash the code computes from the witness is BIP341's `hash_TapLeaf(v ‖ compact_size(s) ‖ s)` of
+    the script element, for a control block of valid shape and a canonically encoded tap script -/
+theorem tapLeafHash_spec (sha : Bytes → Bytes) (xonlyOK : Bytes → Bool) (w : Witness) (a : Bool) (v0 : UInt8)
+    (cbt raw : Bytes)
+    (ha : w.hasAnnex Cfg.repaired = some a) (hcb : fromEnd w.items (if a then 2 else 1) = some (v0 :: cbt))
+    (hlen1 : (cbt.length + 1) % 32 = 1) (hlen2 : 33 ≤ cbt.length + 1) (hlen3 : cbt.length + 1 ≤ 4129)
+    (hkey : xonlyOK (cbt.take 32) = true)
+    (hraw : fromEnd w.items (if a then 3 else 2) = some raw) (hrl : raw.length < 2 ^ 63)
+    (hcanon : Script.serialize (parseRaw raw) = some (Spec.Sighash.serScript raw)) :
+    tapLeafHash Cfg.repaired sha xonlyOK w = some (Spec.Sighash.tapleafHash sha (v0.toNat &&& 0xFE) raw) := by
+  have c0 : cmpAt Gen.cbParseCmp 0 ((cbt.length + 1) % 32) = false := by
+    simp [cmpAt, Gen.cbParseCmp, cmpOp, hlen1]
+  have c1 : cmpAt Gen.cbParseCmp 1 (cbt.length + 1) = false := by
+    simp [cmpAt, Gen.cbParseCmp, cmpOp]; omega
+  have c2 : cmpAt Gen.cbParseCmp 2 (cbt.length + 1) = false := by
+    simp [cmpAt, Gen.cbParseCmp, cmpOp]; omega
+  have hb : (v0.toNat &&& 0xFE) ≤ 255 := by
+    have := v0.toNat_lt
+    exact Nat.le_trans (Nat.and_le_left) (by omega)
+  simp only [tapLeafHash, ha, hcb, hraw, Option.pure_def, Option.bind_eq_bind, Option.bind_some, List.length_cons,
+    c0, c1, c2, Bool.false_eq_true, if_false, Bool.or_self, List.head?_cons, List.drop_succ_cons, List.drop_zero,
+    hkey, Bool.not_true, hrl, not_true_eq_false, hcanon, byteOf, hb, if_true, Spec.Sighash.tapleafHash, tapLeafTag_eq]
+  rfl
+
+/-! ### the dispatcher on the standard output kinds -/
+
+theorem route_p2pkh (txin : TxIn) (spk : Script) (h : Bytes) (hspk : txin.scriptPubkey = some spk)
+    (hc : spk.cmds = [.op 0x76, .op 0xA9, .push h, .op 0x88, .op 0xAC]) :
+    route Cfg.repaired txin = some (.legacy none) ∧ legacyCode none txin = some spk := by
+  simp [route, hspk, isP2sh, isP2wsh, isP2wpkh, isP2tr, hc, legacyCode]
+
+theorem route_p2wpkh (txin : TxIn) (spk : Script) (h : Bytes) (hspk : txin.scriptPubkey = some spk)
+    (hc : spk.cmds = [.op 0, .push h]) (hl : h.length = 20) :
+    route Cfg.repaired txin = some (.bip143 none none) ∧ scriptCode143 txin none none = some (p2pkhScript h) := by
+  simp [route, hspk, isP2sh, isP2wsh, isP2wpkh, isP2tr, hc, hl, scriptCode143, p2pkhOfSecond]
+
+theorem route_p2wsh (txin : TxIn) (spk : Script) (h raw : Bytes) (hspk : txin.scriptPubkey = some spk)
+    (hc : spk.cmds = [.op 0, .push h]) (hl : h.length = 32)
+    (hw : txin.witness.items.getLast? = some raw) (hr : raw.length < 2 ^ 63) :
+    route Cfg.repaired txin = some (.bip143 none (some (parseRaw raw))) ∧
+    scriptCode143 txin none (some (parseRaw raw)) = some (parseRaw raw) := by
+  simp [route, hspk, isP2sh, isP2wsh, isP2wpkh, isP2tr, hc, hl, scriptCode143, hw, convertScript, hr]
+
+theorem route_p2tr (txin : TxIn) (spk : Script) (h : Bytes) (hspk : txin.scriptPubkey = some spk)
+    (hc : spk.cmds = [.op 0x51, .push h]) (hl : h.length = 32)
+    (hlast : txin.witness.items.length < 2 ∨ txin.witness.items.getLast? ≠ some []) :
+    route Cfg.repaired txin = some (.bip341 (Spec.Sighash.extFlagOf txin.witness.items)) := by
+  simp [route, hspk, isP2sh, isP2wsh, isP2wpkh, isP2tr, hc, hl, extFlagOf_spec txin.witness hlast]
+
+theorem route_p2sh_legacy (txin : TxIn) (spk : Script) (h raw : Bytes) (hspk : txin.scriptPubkey = some spk)
+    (hc : spk.cmds = [.op 0xA9, .push h, .op 0x87]) (hl : h.length = 20)
+    (hs : txin.scriptSig.cmds.getLast? = some (.push raw)) (hr : raw.length < 2 ^ 63)
+    (hn1 : isP2wpkh (parseRaw raw) = false) (hn2 : isP2wsh (parseRaw raw) = false) :
+    route Cfg.repaired txin = some (.legacy (some (parseRaw raw))) ∧
+    legacyCode (some (parseRaw raw)) txin = some (parseRaw raw) := by
+  have f1 : isP2sh spk = true := by simp [isP2sh, hc, hl]
+  have f2 : isP2wsh spk = false := by simp [isP2wsh, hc]
+  have f3 : isP2wpkh spk = false := by simp [isP2wpkh, hc]
+  have f4 : isP2tr spk = false := by simp [isP2tr, hc]
+  simp [route, hspk, f1, f2, f3, f4, hs, convertScript, hr, hn1, hn2, legacyCode]
+
+theorem route_p2sh_p2wpkh (txin : TxIn) (spk : Script) (h raw h' : Bytes) (hspk : txin.scriptPubkey = some spk)
+    (hc : spk.cmds = [.op 0xA9, .push h, .op 0x87]) (hl : h.length = 20)
+    (hs : txin.scriptSig.cmds.getLast? = some (.push raw)) (hr : raw.length < 2 ^ 63)
+    (hrc : (parseRaw raw).cmds = [.op 0, .push h']) (hl' : h'.length = 20) :
+    route Cfg.repaired txin = some (.bip143 (some (parseRaw raw)) none) ∧
+    scriptCode143 txin (some (parseRaw raw)) none = some (p2pkhScript h') := by
+  simp [route, hspk, isP2sh, isP2wsh, isP2wpkh, isP2tr, hc, hl, hs, convertScript, hr, hrc, hl', scriptCode143, p2pkhOfSecond]
+
+theorem route_p2sh_p2wsh (txin : TxIn) (spk : Script) (h raw h' wraw : Bytes) (hspk : txin.scriptPubkey = some spk)
+    (hc : spk.cmds = [.op 0xA9, .push h, .op 0x87]) (hl : h.length = 20)
+    (hs : txin.scriptSig.cmds.getLast? = some (.push raw)) (hr : raw.length < 2 ^ 63)
+    (hrc : (parseRaw raw).cmds = [.op 0, .push h']) (hl' : h'.length = 32)
+    (hw : txin.witness.items.getLast? = some wraw) (hwr : wraw.length < 2 ^ 63) :
+    route Cfg.repaired txin = some (.bip143 (some (parseRaw raw)) (some (parseRaw wraw))) ∧
+    scriptCode143 txin (some (parseRaw raw)) (some (parseRaw wraw)) = some (parseRaw wraw) := by
+  simp [route, hspk, isP2sh, isP2wsh, isP2wpkh, isP2tr, hc, hl, hs, convertScript, hr, hrc, hl', scriptCode143, hw, hwr]
+
+/-! the specification's choice on the serialised templates -/
+
+theorem dispatch_p2pkh (h : Bytes) (hl : h.length = 20) (w : List Bytes) :
+    Spec.Sighash.dispatch ([0x76, 0xa9, 0x14] ++ h ++ [0x88, 0xac]) none w
+      = some (.legacy ([0x76, 0xa9, 0x14] ++ h ++ [0x88, 0xac])) := by
+  simp [Spec.Sighash.dispatch, Spec.Sighash.isP2SH, Spec.Sighash.witnessProgram]
+
+theorem dispatch_p2wpkh (h : Bytes) (hl : h.length = 20) (w : List Bytes) :
+    Spec.Sighash.dispatch ([0x00, 0x14] ++ h) none w = some (.bip143 (Spec.Sighash.p2pkhCode h)) := by
+  simp [Spec.Sighash.dispatch, Spec.Sighash.isP2SH, Spec.Sighash.witnessProgram, Spec.Sighash.witnessRule, hl]
+
+theorem dispatch_p2wsh (h : Bytes) (hl : h.length = 32) (w : List Bytes) :
+    Spec.Sighash.dispatch ([0x00, 0x20] ++ h) none w = (w.getLast?).map .bip143 := by
+  simp [Spec.Sighash.dispatch, Spec.Sighash.isP2SH, Spec.Sighash.witnessProgram, Spec.Sighash.witnessRule, hl]
+
+theorem dispatch_p2tr (h : Bytes) (hl : h.length = 32) (w : List Bytes) :
+    Spec.Sighash.dispatch ([0x51, 0x20] ++ h) none w =
+      some (.bip341 (Spec.Sighash.extFlagOf w) (Spec.Sighash.annexOf w)) := by
+  simp [Spec.Sighash.dispatch, Spec.Sighash.isP2SH, Spec.Sighash.witnessProgram, Spec.Sighash.witnessRule, hl]
+
 end Buidl.Tx
